@@ -521,6 +521,11 @@ func filterpath(peer *peer, path, old *table.Path) *table.Path {
 						peer.fsm.logger.Debug("cluster list path attribute has local cluster id, ignore",
 							slog.String("ClusterID", clusterID.String()),
 							slog.Any("Path", path))
+						if !path.IsWithdraw && old != nil {
+							// the new best cannot be sent to this client; the old
+							// best it may hold must not stay advertised.
+							return old.Clone(true)
+						}
 						return nil
 					}
 				}
